@@ -6,9 +6,10 @@ from .. import vim_lang as V
 from ..common import C, cli_map, server_map
 
 TEXTS = [t for t in V.TEXTS if t and "\r" not in t]
-PENDING = ["3", "12", '"a', '"', "d", "c", "y", "2d", '"ad', "g", "f", "dt", "di", "dv", "z", "r", "g~", ">"]
+PENDING = ["3", "12", '"a', '"', "d", "c", "y", "2d", '"ad', "g", "f", "dt", "di", "dv", "z", "r", "g~", ">", "r\\", "f\\", "d\\", "\\"]
 OPEN_MODES = [("ihello", "ihello<esc>"), ("Aend", "Aend<esc>"), ("oline", "oline<esc>"), ("Rxy", "Rxy<esc>"), ("vl", "vl<esc>"), ("Vj", "Vj<esc>"),
-              ("<c-v>jl", "<c-v>jl<esc>"), ("cwnew", "cwnew<esc>"), ("a", "a<esc>")]
+              ("<c-v>jl", "<c-v>jl<esc>"), ("cwnew", "cwnew<esc>"), ("a", "a<esc>"),
+              ("o", "o<esc>"), ("A<CR>", "A<CR><esc>"), ("O", "O<esc>"), ("Go", "Go<esc>"), ("GA<CR>", "GA<CR><esc>"), ("$vl", "$vl<esc>"), ("G$v", "G$v<esc>")]
 COMPLETE_EXTRA = ["dvw", "dVj", '"ayw', '"Ayw', '"ap', "fa;", "tb,", "fa2;", "x.", "dw.", "/o<CR>n", "/a<CR>N", "?o<CR>n", "3x", "2dw", "yyp", "ddP", "xu",
                   "ixy<esc>.", ":s/a/b/<CR>", "vey", "viwd", "guiw", "~", "J", "rZ",
                   # cancelled or rejected commands: what they had collected (count, register, operator, v/V modifier) must be gone
@@ -165,6 +166,9 @@ def run(chk, binary):
         nxt = complete_cmd(rng)
         if rng.random() < 0.6:
             tail = rng.choice(PENDING)
+            if tail.endswith("\\"):
+                # a lone backslash at the end of an argument escapes nothing in the next one
+                nxt = rng.choice(["<CR>x", "<esc>x", "<BS>x", "<down>x", "<right>x"])
             a_args, b_args = [pre + tail, nxt], ([pre, nxt] if pre else [nxt])
             kind = "pending_tails"
         else:
